@@ -15,7 +15,7 @@ fn ctx_word(lang: &str, a: u16, b: u16) -> String {
         v.fillers[idx(a, v.fillers.len())].to_string()
     }
 }
-const SAFE_PUNCT: [&str; 6] = [",", ".", ";", ":", "!", "?"];
+const SAFE_PUNCT: [&str; 10] = [",", ".", ";", ":", "!", "?", "’", "”", "»", "…"];
 
 /// (prefix, suffix): prefix is empty or ends with whitespace; suffix is empty or starts with
 /// whitespace / sentence punctuation, so the number's first and last words are whole tokens.
